@@ -12,6 +12,13 @@ import Drpc.PoolHeap
             been reached yet fire, oldest first (those that are still armed)
     X<e>    the callback of e performs val.Close()      R<e> the callback of e runs p.removeEntry
     E<v>    connection v closes by itself   B<v> v becomes blocked   U<v> v becomes unblocked
+    <api>@<n>/<e>/<f1.f2…|->   the API call P/T/C with a window inside it: at its n-th call into a
+            connection the clock passed the deadlines up to entry e's while the call held p.mu; f1.f2…
+            are the entries whose timer fired in the window.  Such a timer had not been read by the
+            call before (Stop() would have stopped it), the callback cannot do anything to the pool
+            before the call returns, so the call is equivalent to: fire f1, fire f2, …, the call, clock
+            := deadline of e (a timer the model still has armed then is reported as `+latef…`, one
+            reported as fired that the model does not have armed as `!notarmed…`).
   answer: one observation per step, joined with `;` — `<out>~<dump>`, where the dump is both list
   walks with both stored counts and, per connection, closed/closes-by-pool/closes-by-callback.
 -/
@@ -109,6 +116,42 @@ def putStep (cfg : Pool.Cfg) (d : DState) (k v : Nat) : DState × String × Stri
   let pre := fun (xs : List Nat) => if xs.isEmpty then "" else showFired xs ++ "+"
   (d3, pre fl ++ showOut o1, pre fh ++ showOut o2)
 
+structure Mid where
+  n : Nat
+  e : Nat
+  fired : List Nat
+
+def parseMid (s : String) : Option Mid :=
+  match s.splitOn "/" with
+  | [n, e, f] => do
+    let fl ← if f = "-" then some [] else (f.splitOn ".").mapM String.toNat?
+    pure { n := ← n.toNat?, e := ← e.toNat?, fired := fl }
+  | _ => none
+
+/-- an API call during which the clock passed the deadlines up to entry `m.e`'s -/
+def midStep (cfg : Pool.Cfg) (d : DState) (op : Pool.Op) (m : Mid) : DState × String × String :=
+  let (d0, fl0, fh0) := match op with
+    | .put _ _ => advance cfg d (d.now + 1)
+    | _ => (d, [], [])
+  let (d1, badL, badH) := m.fired.foldl (fun (acc : DState × List Nat × List Nat) i =>
+    let (d, bl, bh) := acc
+    let aL := (d.l.ents i).exp == .armed && decide (i < d.l.next)
+    let aH := (d.h.ents.get i).exp == .armed && decide (i < d.h.next)
+    let (d', _, _) := stepBoth cfg d (.fire i)
+    (d', if aL then bl else bl ++ [i], if aH then bh else bh ++ [i])) (d0, [], [])
+  let n0 := d1.l.next
+  let (d2, o1, o2) := stepBoth cfg d1 op
+  let t := (d2.deadlines[m.e]?).getD d2.now
+  let (d3, ll, lh) := advance cfg d2 (max d2.now t)
+  let d4 := match op with
+    | .put _ _ => if d3.l.next > n0 then { d3 with deadlines := d3.deadlines ++ [d3.now + expiry] } else d3
+    | _ => d3
+  let pre := fun (xs : List Nat) => if xs.isEmpty then "" else showFired xs ++ "+"
+  let post := fun (bad late : List Nat) =>
+    (if bad.isEmpty then "" else "!notarmed" ++ ".".intercalate (bad.map toString)) ++
+    (if late.isEmpty then "" else "+late" ++ showFired late)
+  (d4, pre fl0 ++ showOut o1 ++ post badL ll, pre fh0 ++ showOut o2 ++ post badH lh)
+
 def parseOp (tok : String) : Option (Sum Pool.Op Nat) :=
   match tok.toList with
   | ['P', k, v] => do pure (.inl (.put (← digit? k) (← digit? v)))
@@ -131,6 +174,18 @@ def runScenario (cfg : Pool.Cfg) (toks : List String) : Option String := do
   let mut d : DState := { l := Pool.init, h := PoolHeap.init }
   let mut res : List String := []
   for tok in toks do
+    if let [base, ms] := tok.splitOn "@" then
+      let m ← parseMid ms
+      match ← parseOp base with
+      | .inl op =>
+        match op with
+        | .put _ _ | .take _ | .close =>
+          let (d', o1, o2) := midStep cfg d op m
+          d := d'
+          res := obs d o1 o2 :: res
+        | _ => none
+      | .inr _ => none
+      continue
     match ← parseOp tok with
     | .inl (.put k v) =>
       let (d', o1, o2) := putStep cfg d k v
